@@ -18,9 +18,9 @@ const Header_2E4 = "源数据," +
 	"[ 3] P 扑克检测 m=8," +
 	"[ 3] Q 扑克检测 m=8," +
 	"[ 4] P1 重叠子序列检测 m=3," +
-	"[ 4] Q1 重叠子序列检测 m=2," +
+	"[ 4] Q1 重叠子序列检测 m=3," +
 	"[ 4] P2 重叠子序列检测 m=3," +
-	"[ 4] Q2 重叠子序列检测 m=2," +
+	"[ 4] Q2 重叠子序列检测 m=3," +
 	"[ 4] P1 重叠子序列检测 m=5," +
 	"[ 4] Q1 重叠子序列检测 m=5," +
 	"[ 4] P2 重叠子序列检测 m=5," +
@@ -129,7 +129,7 @@ func worker_2E4(jobs <-chan string, out chan<- *R) {
 		PArr = append(PArr, p)
 		QArr = append(QArr, q)
 		log.Printf("[%s] 二元推导检测 m=3 P: %.5f Q: %.5f", filename, p, q)
-		p, _ = randomness.BinaryDerivativeProto(bits, 7)
+		p, q = randomness.BinaryDerivativeProto(bits, 7)
 		PArr = append(PArr, p)
 		QArr = append(QArr, q)
 		log.Printf("[%s] 二元推导检测 m=7 P: %.5f Q: %.5f", filename, p, q)
